@@ -676,8 +676,8 @@ func famCli(tr *Trace, id *int, scratch, bin, behaviours string) int {
 		}
 		run(f, "file", "none", false, nil) // packager inferred from the extension
 		run(f, "file_foreign_ext", "none", true, nil)
-		run(f, "file_other_ext", "none", true, nil)  // -p wins over the extension
-		run(f, "file_other_ext", "none", false, nil) // the extension names the packager
+		run(f, "file_other_ext", "none", true, nil)    // -p wins over the extension
+		run(f, "file_other_ext", "none", false, nil)   // the extension names the packager
 		run(f, "file_foreign_ext", "none", false, nil) // no packager, foreign extension: must fail, nothing written
 		run(f, "dir", "none", false, nil)              // no packager, directory: must fail
 		for _, fault := range []string{"missing_script", "missing_source", "bad_config"} {
